@@ -37,9 +37,8 @@ theorem invA_step {s s' : State} {l : Label} (st : Step s l s') (i : InvA s) : I
       exact invA_thread hth h i
 
 theorem invA_run {w : Bool} {tr : List Label} {s : State} (r : Run (init w) tr s) : InvA s := by
-  generalize hs0 : init w = s0 at r
   induction r with
-  | nil => subst hs0; exact invA_init w
+  | nil => exact invA_init w
   | snoc _ st ih => exact invA_step st ih
 
 set_option maxHeartbeats 4000000 in
